@@ -31,13 +31,25 @@ Definition ecls_eqb (a b : ecls) : bool :=
   end.
 
 (* what an `except X:` clause does *)
-Inductive action := AExit (code : N) | AReraise (e : ecls).
+Inductive action :=
+| AExit (code : N)        (* ... sys.exit(code) *)
+| AReraise (e : ecls)     (* raise Other(...) *)
+| ARaiseSame.             (* bare `raise` *)
+
+(* a statement inside the body of a top-level try *)
+Inductive step :=
+| SPlain (s : stage)                                          (* a stage call directly in the body *)
+| STry (body : list stage) (handlers : list (ecls * action)). (* a nested try/except (no finally) around stage calls *)
 
 Inductive item :=
 | Plain (s : stage) (only_user : bool)
       (* a stage call outside every try; only_user: guarded by `if not delete_wheeldir` *)
-| Try (body : list stage) (handlers : list (ecls * action)) (fin_rm : bool).
+| Try (body : list step) (handlers : list (ecls * action)) (fin_rm : bool).
       (* try: <body> except ...: ... [finally: if <flag>: shutil.rmtree(wheeldir)] *)
+
+Definition step_stages (st : step) : list stage :=
+  match st with SPlain s => [s] | STry b _ => b end.
+Definition body_stages (body : list step) : list stage := concat (map step_stages body).
 
 Record flow := mkFlow {
   f_items : list item;     (* statements after the wheel directory exists, in order *)
